@@ -124,7 +124,7 @@ static int boundary(int bits, uint64_t* out) {
     uint64_t p = (uint64_t)1 << k;
     out[n++] = (p - 1) & top; out[n++] = p & top; out[n++] = (p + 1) & top;
   }
-  uint64_t w[] = {23, 24, 25, 255, 256, 257, 65535, 65536, 65537, 4294967295ull, 4294967296ull, 4294967297ull, top, top - 1};
+  uint64_t w[] = {23, 24, 25, 255, 256, 257, 65535, 65536, 65537, 4294967295ull, 4294967296ull, 4294967297ull, top, top - 1, 55798, 55799, 55800, 2, 3, 4, 5, 21, 22, 32, 36};
   for (size_t i = 0; i < sizeof w / sizeof *w; i++) out[n++] = w[i] & top;
   return n;
 }
